@@ -8,11 +8,12 @@ Local Open Scope list_scope.
 Require Import FV.Base.Util FV.Base.F64 FV.Base.PyVal FV.C01.Model FV.Gen.C10 FV.C10.Model FV.C10.Lemmas.
 
 Definition fl010 : dtype := TFloat fzero (of_Z 10) fzero relres0.
-Definition mkp (name : string) (dt : dtype) (wf : bool) : param :=
+Definition mkpt (name : string) (dt : dtype) (wf : bool) (takes : list str) : param :=
   {| p_name := s_ name; p_iscmd := false; p_optional := false; p_predef := false; p_dt := Some dt; p_unit := [];
      p_dtdefault := PInt 0; p_descr := Some (s_ "d"); p_readonly := false; p_needscfg := false;
      p_export := XName (95%N :: s_ name); p_visibility := 1; p_group := []; p_default := None; p_value := None;
-     p_has_write := true; p_wfunc := wf; p_polled := false; p_uninit := false |}.
+     p_has_write := true; p_wfunc := wf; p_polled := false; p_uninit := false; p_takes := takes |}.
+Definition mkp (name : string) (dt : dtype) (wf : bool) : param := mkpt name dt wf [].
 Definition C1 : cls :=
   {| c_params := [mkp "p1" fl010 true; mkp "p2" TBool false; mkp "p3" (TArray fl010 0 3) false]; c_props := [];
      c_enablepoll := true |}.
